@@ -7,7 +7,7 @@
 import re
 
 KEYWORDS = ["type", "match", "fn", "loop", "self", "Self", "crate", "super", "async", "try", "dyn", "box", "impl", "in", "let", "mod", "move",
-            "mut", "pub", "ref", "trait", "unsafe", "use", "where", "yield", "abstract", "become", "final", "macro", "override", "priv", "typeof",
+            "mut", "pub", "ref", "trait", "unsafe", "use", "where", "yield", "abstract", "become", "final", "macro", "override", "priv",
             "unsized", "virtual", "gen", "await", "as", "str", "bool_", "u8", "i32", "f64", "usize", "_"]
 MANGLED = {"abstract", "alignof", "as", "async", "await", "become", "box", "break", "const", "continue", "crate", "do", "dyn", "else", "enum", "extern",
            "false", "final", "fn", "for", "gen", "if", "impl", "in", "let", "loop", "macro", "match", "mod", "move", "mut", "offsetof", "override", "priv",
@@ -550,7 +550,7 @@ class Lib:
             a, b = self.call(em, f, ci)
             c += a
             rs += b
-        c += '  printf("cb_count %d\\n", cb_count);\n  finish(%d);\n}\n' % (ncalls + 3)
+        c += '  printf("cb_count %%d\\n", cb_count);\n  finish(%d);\n}\n' % (ncalls + 3)
         rs += '  println!("cb_count {}", CB_COUNT);\n  finish(%d);\n} }\n' % (ncalls + 3)
         return c, rs
 
